@@ -4,6 +4,7 @@
   the transactional API consults the committed indexes only.
 -/
 import Nuts.Model.Tx
+import NutsProofs.Lemmas.ReopenAll
 namespace NutsProofs.C13
 open Nuts Nuts.Model Nuts.Model.DB
 
@@ -63,5 +64,81 @@ theorem C13_first_pop_is_head (s : State) (t : Tx) (b k x : Bytes) (xs : List By
   · simp [ListDS.lpop, hg]
 
 example : listOf s0 [98] ≠ none := by decide
+
+/-- … the same from the right: the first `RPop` on an untouched list returns its last element, which is the
+element the commit removes. -/
+theorem C13_first_rpop_is_last (s : State) (t : Tx) (b k x : Bytes) (xs : List Bytes) (l : ListDS.St) (ts : Nat)
+    (ho : t.closed = false) (hw : t.writable = true) (hk : k ≠ [])
+    (hl : listOf s b = some l) (hg : ListDS.get? l k = some (xs ++ [x])) :
+    (txPop s t b k ts false).2 = .ok x ∧ (ListDS.rpop l k).1 = ListDS.put l k xs := by
+  have hne : xs ++ [x] ≠ [] := by simp
+  constructor
+  · have hk' : k.isEmpty = false := by cases k <;> simp_all
+    simp [txPop, txPeek, ho, hl, ListDS.rpeek, hg, txPut, hw, mkRec, hk']
+  · simp [ListDS.rpop, hg]
+
+/-- **sorted sets.** The first `ZPopMax` / `ZPopMin` of a transaction on a sorted set it has not touched
+returns the last / first node of the committed set (the maximum / minimum in (score, key) order), queues exactly
+one record, and applying that record at commit (or at `Open`) removes exactly the node that was returned. -/
+theorem C13_first_zpop_is_extreme (s : State) (t : Tx) (b : Bytes) (z : ZSetA.St) (ts : Nat) (isMax atCommit : Bool)
+    (ho : t.closed = false) (hw : t.writable = true) (hz : zsetOf s b = some z) :
+    let rec_ : Rec := { (mkRec b [32] [] (if isMax then flagZPopMax else flagZPopMin) dsZSet ts) with txid := t.id, status := 0 }
+    (txZPop s t b ts isMax).2 = .ok (if isMax then z.getLast? else z.head?) ∧
+    (txZPop s t b ts isMax).1.pending = t.pending ++ [rec_] ∧
+    (applyZSet z rec_ atCommit).1 = (if isMax then (ZSetA.popMax z).2 else (ZSetA.popMin z).2) ∧
+    (if isMax then (ZSetA.popMax z).1 else (ZSetA.popMin z).1) = (if isMax then z.getLast? else z.head?) := by
+  intro rec_
+  have hput : txPut t (mkRec b [32] [] (if isMax then flagZPopMax else flagZPopMin) dsZSet ts) =
+      ({ t with pending := t.pending ++ [rec_] }, .ok ()) := by
+    simp [txPut, ho, hw, rec_, mkRec]
+  refine ⟨?_, ?_, ?_, ?_⟩
+  · simp only [txZPop, ho, hz, Bool.false_eq_true, if_false]
+    rw [hput]
+  · simp only [txZPop, ho, hz, Bool.false_eq_true, if_false]
+    rw [hput]
+  · cases isMax <;> simp [applyZSet, rec_, mkRec, flagZPopMax, flagZPopMin, flagZAdd, flagZRem, flagZRemRangeByRank]
+  · cases isMax
+    · simp only [Bool.false_eq_true, if_false, ZSetA.popMin]
+      cases z <;> rfl
+    · simp only [if_true, ZSetA.popMax]
+      cases hl : z.getLast? <;> rfl
+
+/-- **sets.** The first `SPop` of a transaction on a set it has not touched returns a member, queues one
+removal record for it, and applying that record removes exactly that member. -/
+theorem C13_first_spop_removes_member (s : State) (t : Tx) (b k x : Bytes) (m : SetDS.St) (mem : List Bytes) (ts : Nat)
+    (ho : t.closed = false) (hw : t.writable = true) (hk : k ≠ []) (hx : x ≠ [])
+    (hm : setOf s b = some m) (hg : SetDS.get? m k = some mem) (hin : mem.contains x = true) :
+    let rec_ : Rec := { (mkRec b k x flagDelete dsSet ts) with txid := t.id, status := 0 }
+    (txSPop s t b k (some x) ts).2 = .ok x ∧
+    (txSPop s t b k (some x) ts).1.pending = t.pending ++ [rec_] ∧
+    (applySet m rec_).1 = SetDS.put m k (mem.filter fun y => y ≠ x) := by
+  intro rec_
+  have hk' : k.isEmpty = false := by cases k <;> simp_all
+  have hput : txPut t (mkRec b k x flagDelete dsSet ts) = ({ t with pending := t.pending ++ [rec_] }, .ok ()) := by
+    simp [txPut, ho, hw, rec_, mkRec, hk']
+  have hin' : x ∈ mem := by simpa using hin
+  have hmem : SetDS.sismember m k x = true := by simp [SetDS.sismember, hg, hin']
+  refine ⟨?_, ?_, ?_⟩
+  · simp only [txSPop, ho, hm, hmem, Bool.false_eq_true, if_false, if_true]
+    rw [hput]
+  · simp only [txSPop, ho, hm, hmem, Bool.false_eq_true, if_false, if_true]
+    rw [hput]
+  · have hx' : x.isEmpty = false := by cases x <;> simp_all
+    simp only [applySet, rec_, mkRec, SetDS.srem, hg, hx']
+    simp
+
+open NutsProofs.Reopen NutsProofs.ReopenAll in
+/-- **C13, the state a transaction leaves.** Whatever a write transaction queued — pushes, pops, `LRem`,
+`LSet`, `LTrim`, set insertions and removals, sorted-set insertions, removals and pops, over any buckets, any
+number of them — when `Commit` succeeds, the lists, sets and sorted sets it leaves are those at its start with
+the queued operations applied **one after another, in the order they were issued**, and none of those
+applications panics. (What the property demands beyond this — that the values *returned* inside the
+transaction are those of that sequential run — holds for the first operation on each structure
+(`C13_first_pop_is_head`, `C13_first_rpop_is_last`, `C13_first_zpop_is_extreme`,
+`C13_first_spop_removes_member`) and fails after it: finding D-NO-RYW, `C13_witness_double_pop`.) -/
+theorem C13_commit_applies_operations_in_issue_order (s : State) (t : List Rec) (h : Shape s)
+    (ht : AnyTx s.opt.seg t) (hok : (commit s t).2 = .ok ()) :
+    sv (commit s t).1 = t.foldl (fun v r => (stepSV v r true).1) (sv s) ∧ NoPanic (sv s) t true :=
+  commit_sv s t h ht hok
 
 end NutsProofs.C13
